@@ -59,6 +59,8 @@ def _finder(ctx):
 def _is_rp(fi, req, e, at):
     """Does expression e denote the request's Uri-Path at CFG node `at`?"""
     e = resolve_at(fi, e, at)
+    if isinstance(e, ast.Call) and chain(e.func) == "tuple" and len(e.args) == 1 and not e.keywords:
+        e = resolve_at(fi, e.args[0], at)  # the option view already is a tuple
     return chain(e) == "%s.opt.uri_path" % req
 
 
@@ -96,8 +98,10 @@ def a(ctx):
     ctx.need(len(tests) == 1, "more than one exact-match test on _resources: outside the rule's vocabulary")
     tid, cmp_, key, hit, miss = tests[0]
     gs = cfg.guards(tid)
-    ctx.ob("the exact-match test is evaluated for every request (no earlier condition, e.g. on an empty path, skips it)", not gs, fi, cmp_,
-           detail="evaluated only under: %s" % [(stmt_text(e, 60), pol) for e, pol, _ in gs] if gs else None)
+    on_path = [(e, pol) for e, pol, _ in gs if any(_is_rp(fi, req, x, tid) for x in ast.walk(e) if isinstance(x, (ast.Name, ast.Attribute)))]
+    ctx.need(len(on_path) == len(gs), "the exact-match test is preceded by a condition the rule cannot interpret: %s" % [stmt_text(e, 60) for e, _, _ in gs])
+    ctx.ob("the exact-match test is evaluated for every request path (no earlier condition on the path, e.g. on its emptiness, skips it)", not on_path, fi, cmp_,
+           detail=("evaluated only under: %s" % [(stmt_text(e, 60), pol) for e, pol in on_path]) if on_path else None)
     subs = _table_accesses(fi, cfg, "_subsites")
     ctx.floor("accesses to _subsites in the lookup", len(subs), 2)
     for n, nid in subs:
@@ -280,6 +284,10 @@ def _while_idiom(ctx, fi, cfg, req, loop):
                         cand = nm
                 except NormError:
                     pass
+    if cand is None and isinstance(test, ast.Compare) and len(names_in(test)) == 2 and "len" in names_in(test):
+        # a recognisable condition on the candidate's length that is not its non-emptiness
+        ctx.ob("the prefix search continues exactly while the candidate is non-empty (down to one-component prefixes)", False, fi, test)
+        return
     ctx.need(cand is not None, "prefix search: the while condition is not the non-emptiness of one local (accepted idioms: `while p:` slicing loop, `for i in range(len(p)-1, 0, -1)`)")
     tn = [n for n in cfg.locate(test) if cfg.nodes[n].kind == "test"]
     ctx.need(len(tn) == 1, "prefix search: loop test has no unique CFG node")
@@ -309,7 +317,7 @@ def _while_idiom(ctx, fi, cfg, req, loop):
         ok = uv[0] == "expr" and _seq_nf(uv[1], key) == [("init", cand)]
         ctx.ob("every update of the candidate removes exactly its last element", ok, fi, u)
         un.extend(cfg.locate(u))
-    once = cfg.must_pass(loopT, un, to=head, skip_labels=("exc",)) and not any((set(cfg.reach({u}, avoid={head})) & set(un)) - set() for u in un if (set(cfg.reach({u}, avoid={head})) & set(un)))
+    once = cfg.must_pass(loopT, un, to=head) and not any(set(cfg.reach({u}, avoid={head})) & set(un) for u in un)
     ctx.ob("the candidate is shortened exactly once per iteration (no prefix length is skipped, the loop makes progress)", once, fi, updates[0])
     # --- membership test
     mts = [t for t in _member_tests(fi, cfg, "_subsites") if contains(loop, t[1])]
@@ -373,8 +381,7 @@ def _while_idiom(ctx, fi, cfg, req, loop):
 
 def _for_idiom(ctx, fi, cfg, req, loop):
     N = Normalizer()
-    ctx.need(isinstance(loop.target, ast.Name) and isinstance(loop.iter, ast.Call) and chain(loop.iter.func) == "range" and len(loop.iter.args) == 3 and not loop.orelse or
-             (isinstance(loop.target, ast.Name) and isinstance(loop.iter, ast.Call) and chain(loop.iter.func) == "range" and len(loop.iter.args) == 3),
+    ctx.need(isinstance(loop.target, ast.Name) and isinstance(loop.iter, ast.Call) and chain(loop.iter.func) == "range" and len(loop.iter.args) == 3 and not loop.iter.keywords,
              "prefix search: the for loop is not `for i in range(start, stop, step)` (accepted idioms: `while p:` slicing loop, `for i in range(len(p)-1, 0, -1)`)")
     i = loop.target.id
     ctx.need(not [w for w in writes_to_name(fi.node, i) if w is not loop], "prefix search: the loop index is re-bound")
@@ -385,9 +392,6 @@ def _for_idiom(ctx, fi, cfg, req, loop):
     ctx.need(len(lens) == 1, "prefix search: range start does not mention exactly one len(..)")
     base = lens[0].args[0]
     ctx.need(_is_rp(fi, req, base, hn), "prefix search: the range is not over the request path")
-    bkey = ast.unparse(lens[0])
-    rename = {}
-    want_start = Poly.atom("len(%s)" % N.atom_name(base) if hasattr(N, "atom_name") else bkey) - Poly.const(1)
     try:
         got_start = N.poly(start)
         ref_start = N.poly(ast.parse("len(%s) - 1" % ast.unparse(base), mode="eval").body)
@@ -434,6 +438,11 @@ def _for_idiom(ctx, fi, cfg, req, loop):
             nf = _seq_nf(val, key)
             ctx.ob("the remainder is the request path from the prefix length on (candidate + remainder == request path)", nf == [("post", key_rp, dump(ast.Name(id=i, ctx=ast.Load())))], fi, w, detail="normal form %s" % (nf,))
             rtype = list if (isinstance(val, ast.Call) and chain(val.func) == "list") or isinstance(val, ast.List) else tuple
+            if rtype is tuple:
+                # slices of the Uri-Path view are tuples: premise read from options._items_view
+                g = ctx.prog.func("options._items_view.<locals>._getter")
+                rts = [n for n in walk_no_nested(g.node) if isinstance(n, ast.Return)]
+                ctx.need(len(rts) == 1 and isinstance(rts[0].value, ast.Call) and chain(rts[0].value.func) == "tuple", "the repeatable-option view no longer returns a tuple")
             _empty_mapping(ctx, fi, cfg, rname, cpn, cp, rtype)
         else:
             nf = _seq_nf(R_, key)
@@ -527,12 +536,17 @@ def c(ctx):
                     val = None if v is None else (v.value if isinstance(v, ast.Constant) else "?")
                     okr = okr and val is want[1]
             # the handler must not fall through into code using the (unbound) child
-            uses_child = [n for n in sorted(cfg.reach({d}, include_src=True)) if cfg.nodes[n].ast is not None and cfg.nodes[n].kind in ("stmt", "return", "test")
-                          and any(isinstance(x, ast.Await) for x in ast.walk(cfg.nodes[n].ast))]
+            bound = set()
+            st_ = cfg.nodes[cn].ast
+            if isinstance(st_, ast.Assign):
+                bound = {x.id for t in st_.targets for x in ast.walk(t) if isinstance(x, ast.Name)}
+            uses_child = [n for n in sorted(cfg.reach({d}, include_src=True)) if cfg.nodes[n].ast is not None and cfg.nodes[n].kind in ("stmt", "return", "test", "for", "with")
+                          and any(isinstance(x, ast.Name) and x.id in bound and isinstance(x.ctx, ast.Load) for x in ast.walk(cfg.nodes[n].ast))]
             ctx.ob("for an unknown path the caller returns its documented default (%r) without touching a child" % (want[1],), okr and not uses_child, fi, h,
                    construct="except KeyError in %s" % fi.short)
         # nothing but the lookup is covered by the handler (a child's own KeyError must not become 4.04)
-        covered = [n for n in cfg.nodes if n.kind in ("stmt", "return", "test", "for", "with") and (d, "exc") in cfg.succ[n.id] and n.id != cn]
+        covered = [n for n in cfg.nodes if n.kind in ("stmt", "return", "test", "for", "with") and (d, "exc") in cfg.succ[n.id] and n.id != cn
+                   and not (isinstance(n.ast, ast.Expr) and isinstance(n.ast.value, ast.Call) and is_log_call(n.ast.value))]
         ctx.ob("the handler covers only the lookup (a KeyError raised inside the child is not mistaken for an unknown path)", not covered, fi, h,
                detail="; ".join(stmt_text(n.ast, 60) for n in covered), construct="try body in %s" % fi.short)
 
@@ -573,11 +587,11 @@ def d(ctx):
         f = all_methods[name]
         reads = _self_fields_read(f)
         for attr, node in sorted(reads.items()):
-            if attr in TABLES or attr in all_methods:
+            if attr in TABLES or attr in all_methods or attr in ("log", "logger", "_log"):
                 continue
             # another per-site container: acceptable only if both add_resource and remove_resource maintain it
             ws = field_writers(ctx.prog, attr, modules={"aiocoap.resource"})
-            maintained = {SITE[:-1] + "." + m for m in ("add_resource", "remove_resource")} <= {"resource." + w.split("resource.", 1)[1] if w.startswith("resource.") else w for w in ws}
+            maintained = {SITE + "add_resource", SITE + "remove_resource"} <= set(ws)
             ctx.ob("Site.%s reads no per-site state besides the two live tables (a change by add_resource/remove_resource is visible to the next request)" % name, maintained, f, node,
                    detail="reads self.%s, written by %s" % (attr, sorted(ws)))
         ctx.ob("Site.%s reads the live tables" % name, any(t in reads for t in TABLES), f, f.node, construct="Site.%s table reads" % name)
@@ -659,6 +673,9 @@ def e(ctx):
     rets = [n for n in cfg.nodes if n.kind == "return" and cfg.is_reachable(n.id)]
     ctx.floor("returns of the lookup", len(rets), 2)
     names = set()
+    gnode = ctx.prog.func("message.Message.get_request_uri").node
+    reader_attrs = {n.attr for n in walk_no_nested(gnode) if isinstance(n, ast.Attribute)} | \
+        {n.args[1].value for n in walk_no_nested(gnode) if isinstance(n, ast.Call) and chain(n.func) in ("hasattr", "getattr") and len(n.args) >= 2 and isinstance(n.args[1], ast.Constant)}
     for r in rets:
         v = r.ast.value
         ctx.need(isinstance(v, ast.Tuple) and len(v.elts) == 2, "the lookup returns something other than a (child, message) pair")
@@ -677,6 +694,9 @@ def e(ctx):
                     if isinstance(t, ast.Attribute) and isinstance(t.value, ast.Name) and t.value.id == cp.id:
                         stores.append((t.attr, n))
         on_path = [(a_, n) for a_, n in stores if cfg.dominates(dn, cfg.loc1(n)) and cfg.must_pass(dn, [cfg.loc1(n)], to=r.id)]
+        if len(on_path) > 1:
+            # further attributes on the copy are not this clause's business: keep those get_request_uri knows
+            on_path = [(a_, n) for a_, n in on_path if a_ in reader_attrs]
         ctx.ob("the original request path is stored on the copy before it is returned", len(on_path) == 1, fi, r.ast, detail="attribute stores on the copy: %s" % [a_ for a_, _ in stores])
         for attr, st in on_path:
             names.add(attr)
@@ -793,7 +813,10 @@ def f(ctx):
                 vals = []
                 for w in reaching_defs(fi, dvar, tn):
                     dv = def_value(w, dvar) if w != PARAM else (PARAM,)
-                    vals.append(dv[1] if dv[0] == "expr" else None)
+                    if dv[0] == "expr" and isinstance(dv[1], ast.IfExp):
+                        vals.extend([dv[1].body, dv[1].orelse])
+                    else:
+                        vals.append(dv[1] if dv[0] == "expr" else None)
                 okd = bool(vals) and all(v is not None and (match("%s.get_link_description()" % resv, v) is not None or (isinstance(v, ast.Dict) and not v.keys)) for v in vals) \
                     and any(v is not None and match("%s.get_link_description()" % resv, v) is not None for v in vals)
                 ctx.ob("the description tested for None is the resource's own get_link_description() (an absent method counts as {})", okd, fi, n.ast, construct="description source")
@@ -807,7 +830,7 @@ def f(ctx):
         for a_ in mine:
             x = resolve_at(fi, a_.args[0], cfg.loc1(a_))
             ml = match("Link($href, $*r, $**kw)", x)
-            ctx.ob("a resource is listed under '/' + '/'.join(<its registered path>)", ml is not None and slash_path(ml["href"], pathv), fi, a_, detail="link: %s" % stmt_text(x, 80))
+            ctx.ob("a resource is listed under '/' + '/'.join(<its registered path>)", ml is not None and slash_path(resolve_at(fi, ml["href"], cfg.loc1(a_)), pathv), fi, a_, detail="link: %s" % stmt_text(x, 80))
     # --- sub-sites
     for l in by_table.get("_subsites", []):
         pathv, resv = l.target.elts[0].id, l.target.elts[1].id
@@ -827,7 +850,7 @@ def f(ctx):
             ml = match("Link($href, $*r, $**kw)", x)
             ok = False
             if ml is not None:
-                ops = plus_operands(ml["href"])
+                ops = plus_operands(resolve_at(fi, ml["href"], cfg.loc1(a_)))
                 ok = len(ops) == 3 and slash_path(ast.BinOp(left=ops[0], op=ast.Add(), right=ops[1]), pathv) and chain(ops[2]) == "%s.href" % lv
                 ok = ok and len(ml["r"]) == 1 and chain(ml["r"][0]) == "%s.attr_pairs" % lv
             ctx.ob("a nested link is listed under the sub-site's path followed by its own href, with its attributes", ok, fi, a_, detail="link: %s" % stmt_text(x, 90))
@@ -870,11 +893,12 @@ def g(ctx):
     q = loop.target.id
     hn = cfg.loc1(loop)
     # --- splitting
-    splits = [(n, b_) for n, b_ in find("($k, $v) = %s.split($sep, $n)" % q, loop)]
+    splits = [(n, b_) for n, b_ in find("($k, $v) = %s.split($*a)" % q, loop)]
     ctx.need(len(splits) == 1 and all(isinstance(splits[0][1][x], ast.Name) for x in ("k", "v")), "render_get: expected `k, v = item.split('=', 1)`")
     sp, sb = splits[0]
     k, v = sb["k"].id, sb["v"].id
-    ctx.ob("a query item is split at its first '=' into key and value", try_eval(ctx.prog, fi.module, sb["sep"]) == "=" and try_eval(ctx.prog, fi.module, sb["n"]) == 1, fi, sp)
+    sa = sb["a"]
+    ctx.ob("a query item is split at its first '=' into key and value", len(sa) == 2 and try_eval(ctx.prog, fi.module, sa[0]) == "=" and try_eval(ctx.prog, fi.module, sa[1]) == 1 and not sp.value.keywords, fi, sp)
     sn = cfg.loc1(sp)
     hs = [d for d, lab in cfg.succ[sn] if lab == "exc" and cfg.nodes[d].kind == "handler"]
     appends = [n for n, b_ in find("$f.append($x)", loop)]
@@ -886,7 +910,7 @@ def g(ctx):
         types = [] if h.type is None else (h.type.elts if isinstance(h.type, ast.Tuple) else [h.type])
         if h.type is None or any(ctx.prog.is_subclass("ValueError", ctx.prog.resolve_in_module(fi.module, chain(t) or "?")) for t in types):
             r = cfg.reach({d}, avoid={hn}, include_src=True)
-            okh = not (set(an) & r) and cfg.exit not in r and cfg.rexit not in cfg.reach({d}, avoid={hn}, skip_labels=()) or (not (set(an) & r) and cfg.exit not in r and not raises_from(cfg, d))
+            okh = not (set(an) & r) and cfg.exit not in r and not any(cfg.nodes[x].kind == "raise" for x in r)
             break
     ctx.ob("a query item without '=' registers no filter and does not fail the request", okh, fi, sp, construct="item without '='")
     # --- matcher: prefix for a trailing '*', equality otherwise
@@ -991,6 +1015,12 @@ R.seed("C17.a", F_R, EXACT + EMPTY, EMPTY + EXACT, "empty-path check first: a ro
 R.seed("C17.a", F_R, "            return self._resources[request.opt.uri_path], stripped\n", "            return self._resources[request.opt.uri_path[:1]], stripped\n", "wrong key on the hit side")
 R.seed("C17.a", F_R, "        if request.opt.uri_path in self._resources:\n            stripped = request.copy(uri_path=())", "        if request.opt.uri_path in self._resources and request.opt.uri_path[:-1] not in self._subsites:\n            stripped = request.copy(uri_path=())", "sub-sites searched before resources win")
 R.seed("C17.a", F_R, "            stripped._original_request_path = original_request_path\n            return self._resources[request.opt.uri_path], stripped\n", "            stripped._original_request_path = original_request_path\n", "exact match falls through into the prefix search")
+LOOP = ("        remainder = [request.opt.uri_path[-1]]\n        path = request.opt.uri_path[:-1]\n        while path:\n            if path in self._subsites:\n                res = self._subsites[path]\n"
+        "                if remainder == [\"\"]:\n                    # sub-sites should see their root resource like sites\n                    remainder = []\n"
+        "                stripped = request.copy(uri_path=remainder)\n                stripped._original_request_path = original_request_path\n                return res, stripped\n"
+        "            remainder.insert(0, path[-1])\n            path = path[:-1]\n")
+R.seed("C17.a", F_R, EXACT + EMPTY + LOOP + "        raise KeyError()\n",
+       "        if request.opt.uri_path:\n    " + LOOP.replace("\n        ", "\n            ").rstrip(" ") + "\n" + EXACT + "        raise KeyError()\n", "sub-sites searched before resources")
 # C17.b
 R.seed("C17.b", F_R, "        path = request.opt.uri_path[:-1]\n        while path:", "        path = request.opt.uri_path\n        while path:", "the full path is tried as a sub-site prefix (not a proper prefix; invariant broken)")
 R.seed("C17.b", F_R, "            remainder.insert(0, path[-1])\n            path = path[:-1]\n", "            path = path[:-1]\n            remainder.insert(0, path[-1])\n", "element read after shortening")
